@@ -130,4 +130,50 @@ firings; the two map engines: at most `bound` passes of at most one firing per r
 def fireAllOk (bound rules : Nat) (perPass : Bool) (n : Nat) : Bool :=
   if perPass then n ≤ bound * rules else n ≤ bound
 
+/-! #### engine histories (several `fire_all` calls on one `IncrementalEngine`) -/
+
+/-- the no-loop flag of rule `n` of an engine case (rule i is named "R<i>") -/
+def isNoLoopOf (rules : List CRule) (n : Nat) : Bool :=
+  match rules[n]? with
+  | some r => r.noLoop
+  | none => false
+
+/-- no-loop inside one returned list: walking through the names, a no-loop rule already in `since` (fired since the last
+reset) must not appear; returns the extended set -/
+def noLoopNames (isNoLoop : Nat → Bool) : List Nat → List Nat → Option (List Nat)
+  | since, [] => some since
+  | since, n :: ns => if isNoLoop n && since.contains n then none else noLoopNames isNoLoop (setInsert n since) ns
+
+/-- **a no-loop rule fires at most once between resets**, over a whole history of calls: the set of rules fired since the
+last `reset` is carried from one `fire_all` call to the next (whatever happens in between — inserts, updates, retracts, a
+call that stopped at the iteration bound) and emptied by `reset` only.  Also every call returns at most `bound` names and
+handles are handed out in sequence. -/
+def histOk (isNoLoop : Nat → Bool) (bound : Nat) : List Nat → Nat → List HOp → List HRes → Bool
+  | _, _, [], [] => true
+  | since, next, .fire :: ops, .fired names :: rs =>
+    decide (names.length ≤ bound) &&
+    (match noLoopNames isNoLoop since names with
+     | some since' => histOk isNoLoop bound since' next ops rs
+     | none => false)
+  | _, next, .reset :: ops, .unit :: rs => histOk isNoLoop bound [] next ops rs
+  | since, next, .insert _ _ :: ops, .handle h :: rs => h == next && histOk isNoLoop bound since (next + 1) ops rs
+  | since, next, .update _ _ _ :: ops, .ok _ :: rs => histOk isNoLoop bound since next ops rs
+  | since, next, .retract _ :: ops, .ok _ :: rs => histOk isNoLoop bound since next ops rs
+  | _, _, _, _ => false
+
+/-- which clause of `histOk` fails first, with the index of the call -/
+def histBad (isNoLoop : Nat → Bool) (bound : Nat) : Nat → List Nat → Nat → List HOp → List HRes → String
+  | _, _, _, [], [] => "histOk"
+  | i, since, next, .fire :: ops, .fired names :: rs =>
+    if names.length > bound then s!"fire_all_bounded:count:H@{i}" else
+    (match noLoopNames isNoLoop since names with
+     | some since' => histBad isNoLoop bound (i + 1) since' next ops rs
+     | none => s!"no_loop_once_between_resets@{i}")
+  | i, _, next, .reset :: ops, .unit :: rs => histBad isNoLoop bound (i + 1) [] next ops rs
+  | i, since, next, .insert _ _ :: ops, .handle h :: rs =>
+    if h == next then histBad isNoLoop bound (i + 1) since (next + 1) ops rs else s!"handle_sequence@{i}"
+  | i, since, next, .update _ _ _ :: ops, .ok _ :: rs => histBad isNoLoop bound (i + 1) since next ops rs
+  | i, since, next, .retract _ :: ops, .ok _ :: rs => histBad isNoLoop bound (i + 1) since next ops rs
+  | i, _, _, _, _ => s!"shape@{i}"
+
 end C07
